@@ -197,8 +197,12 @@ func TestC03(t *testing.T) {
 	report.Regress(st, "C03")
 	active := report.ActiveFindings(st, "C03")
 
+	ncase := 0
 	run := func(stream string, c FragCase) bool {
 		st.Eval()
+		if ncase++; ncase%40 == 0 {
+			dirtyState()
+		}
 		sanitize(c.Tree, active, st.Excluded)
 		f, rows, both := checkC03(c)
 		if f != nil {
